@@ -1,5 +1,5 @@
-(* C09  Letting time pass in one step or in several gives the same ticks and status.  Times are integer ticks (exactly representable times; DESIGN section 3).  Entity level (faithful models of component/entity.py and common/mob.py, Model/E*.v): C09_periodic / C09_consumable / C09_keydown / C09_dot: for every well-formed entity state and all a, b >= 0, elapsing a then b equals elapsing a+b: same tick counts, same state (Periodic: up to the interval counter of an expired schedule, which no operation reads: C09_periodic_obs_sound).  Component level (Model/Comp.v, reduce_spec = the reducers of the stateful classes of component/common): C09_elapse_chunk: for every modelled class except HitLimitedPeriodicDamageComponent, the damage events of the two-step run are a permutation of those of the one-step run (same names, values, hits) and the final states agree up to dead interval counters; C09_elapse_chunk_views: hence validity, running, buff and keydown views agree.  C09_wf_invariant: well-formedness is preserved by every modelled reducer, so the theorem applies in every reachable state; C09_elapsed_carries_time: every elapsed notification carries the time of the elapse (C06's component clause).  Not proved here (correspondence and implementation-side search only): the hit-limited loop of HitLimitedPeriodicDamageComponent, the job-specific classes. *)
-From Coq Require Import ZArith List Bool Permutation. From V.Model Require Import Comp. From V.Proofs Require EPeriodicP EConsumableP EKeydownP EDotP. From V.Proofs Require Import CompChunk.
+(* C09  Letting time pass in one step or in several gives the same ticks and status.  Times are integer ticks (exactly representable times; DESIGN section 3).  Entity level (faithful models of component/entity.py and common/mob.py, Model/E*.v): C09_periodic / C09_consumable / C09_keydown / C09_dot: for every well-formed entity state and all a, b >= 0, elapsing a then b equals elapsing a+b: same tick counts, same state (Periodic: up to the interval counter of an expired schedule, which no operation reads: C09_periodic_obs_sound).  Component level (Model/Comp.v, reduce_spec = the reducers of the stateful classes of component/common): C09_elapse_chunk (15 classes) and C09_hitlimited_chunk (HitLimitedPeriodicDamageComponent, under the reachable-state invariant hl_inv: once the hit cap is reached the schedule is disabled; C09_hitlimited_invariant / _established: preserved by every reducer, established by an accepted use): the damage events of the two-step run are a permutation of those of the one-step run (same names, values, hits) and the final states agree up to dead interval counters; C09_elapse_chunk_views / C09_hitlimited_views: hence validity, running, buff and keydown views agree.  C09_wf_invariant / C09_hitlimited_wf: well-formedness is preserved by every modelled reducer, so the theorems apply in every reachable state; C09_elapsed_carries_time / C09_hitlimited_elapsed: every elapsed notification carries the time of the elapse (C06's component clause); C09_hitlimited_fuel: the capped loop of the specification never runs out of fuel.  Not modelled (implementation-side two-execution search only): the job-specific classes. *)
+From Coq Require Import ZArith List Bool Permutation. From V.Model Require Import Comp. From V.Proofs Require EPeriodicP EConsumableP EKeydownP EDotP. From V.Proofs Require Import CompChunk CompChunkHL.
 
 Theorem C09_periodic :
   forall (s : EPeriodic.P) (a b : Z),
@@ -87,6 +87,91 @@ Theorem C09_elapsed_carries_time :
         reduce_spec c MElapse p t s = Some (s', es) -> elapsed_times es = t :: nil.
 Proof. exact @elapsed_carries_time. Qed.
 
+Theorem C09_hitlimited_chunk :
+  forall (p : par) (a b : Z) (s s1 : ust) (e1 : list ev) (s2 : ust) 
+          (e2 : list ev) (s3 : ust) (e3 : list ev),
+        wf_ust s ->
+        hl_inv p s ->
+        0 <= a ->
+        0 <= b ->
+        reduce_spec HitLimitedPeriodic MElapse p a s = Some (s1, e1) ->
+        reduce_spec HitLimitedPeriodic MElapse p b s1 = Some (s2, e2) ->
+        reduce_spec HitLimitedPeriodic MElapse p (a + b) s = Some (s3, e3) ->
+        unorm s2 = unorm s3 /\ Permutation (dealts (e1 ++ e2)) (dealts e3).
+Proof. exact @chunk_hitlimited. Qed.
+
+Theorem C09_hitlimited_views :
+  forall (p : par) (a b : Z) (s s1 : ust) (e1 : list ev) (s2 : ust) 
+          (e2 : list ev) (s3 : ust) (e3 : list ev),
+        wf_ust s ->
+        hl_inv p s ->
+        0 <= a ->
+        0 <= b ->
+        reduce_spec HitLimitedPeriodic MElapse p a s = Some (s1, e1) ->
+        reduce_spec HitLimitedPeriodic MElapse p b s1 = Some (s2, e2) ->
+        reduce_spec HitLimitedPeriodic MElapse p (a + b) s = Some (s3, e3) ->
+        view_validity HitLimitedPeriodic p s2 = view_validity HitLimitedPeriodic p s3 /\
+        view_running HitLimitedPeriodic p s2 = view_running HitLimitedPeriodic p s3 /\
+        view_buff HitLimitedPeriodic s2 = view_buff HitLimitedPeriodic s3 /\
+        view_keydown HitLimitedPeriodic s2 = view_keydown HitLimitedPeriodic s3.
+Proof. exact @chunk_hitlimited_views. Qed.
+
+Theorem C09_hitlimited_invariant :
+  forall (m : meth) (p : par) (t : Z) (s s' : ust) (es : list ev),
+        hl_inv p s -> reduce_spec HitLimitedPeriodic m p t s = Some (s', es) -> hl_inv p s'.
+Proof. exact @hl_inv_preserved. Qed.
+
+Theorem C09_hitlimited_established :
+  forall (p : par) (t : Z) (s s' : ust) (es : list ev),
+        0 < p_maxcount p ->
+        reduce_spec HitLimitedPeriodic MUse p t s = Some (s', es) ->
+        rejected es = false -> hl_inv p s'.
+Proof. exact @hl_inv_use_established. Qed.
+
+Theorem C09_hitlimited_wf :
+  forall (m : meth) (p : par) (t : Z) (s s' : ust) (es : list ev),
+        wf_ust s ->
+        wf_par p s ->
+        0 <= t ->
+        reduce_spec HitLimitedPeriodic m p t s = Some (s', es) ->
+        wf_ust s' /\ u_ic1 s' = u_ic1 s /\ u_ic2 s' = u_ic2 s /\ u_ic3 s' = u_ic3 s.
+Proof. exact @hl_wf_preserved. Qed.
+
+Theorem C09_hitlimited_fuel :
+  forall (p : par) (t : Z) (s : ust),
+        P.wf (u_p1 s) ->
+        0 <= t ->
+        hit_limited_loop (P.fuel_of t) (p_maxcount p) (u_p1 s) t (P.cnt (u_p1 s)) 0 <> None.
+Proof. exact @hl_fuel_enough. Qed.
+
+Theorem C09_hitlimited_elapsed :
+  forall (p : par) (t : Z) (s : ust),
+        P.wf (u_p1 s) -> 0 <= t -> elapsed_times (snd (hl_spec p t s)) = t :: nil.
+Proof. exact @hl_elapsed_carries_time. Qed.
+
+Theorem C09_hitlimited_nonvacuous :
+  wf_ust ex_st /\
+        hl_inv ex_par ex_st /\
+        reduce_spec HitLimitedPeriodic MElapse ex_par 50 ex_st =
+        Some
+          (set_p1 (set_cd ex_st (-50))
+             {| P.interval := 10; P.counter := 10; P.tl := 0; P.cnt := 3 |},
+           EElapsed 50 :: EDealt 7 1 :: EDealt 7 1 :: nil) /\
+        reduce_spec HitLimitedPeriodic MElapse ex_par 20
+          (set_p1 (set_cd ex_st (-50))
+             {| P.interval := 10; P.counter := 10; P.tl := 0; P.cnt := 3 |}) =
+        Some
+          (set_p1 (set_cd ex_st (-70))
+             {| P.interval := 10; P.counter := 10; P.tl := 0; P.cnt := 3 |}, 
+           EElapsed 20 :: nil) /\
+        reduce_spec HitLimitedPeriodic MElapse ex_par 70 ex_st =
+        Some
+          (set_p1 (set_cd ex_st (-70))
+             {| P.interval := 10; P.counter := 10; P.tl := 0; P.cnt := 3 |},
+           EElapsed 70 :: EDealt 7 1 :: EDealt 7 1 :: nil) /\
+        P.cnt (P.elapse (u_p1 ex_st) 50) = 5 /\ P.cnt (P.elapse (u_p1 ex_st) 70) = 7.
+Proof. exact @hl_nonvacuous. Qed.
+
 Print Assumptions C09_periodic.
 Print Assumptions C09_periodic_obs_sound.
 Print Assumptions C09_consumable.
@@ -96,3 +181,11 @@ Print Assumptions C09_elapse_chunk.
 Print Assumptions C09_elapse_chunk_views.
 Print Assumptions C09_wf_invariant.
 Print Assumptions C09_elapsed_carries_time.
+Print Assumptions C09_hitlimited_chunk.
+Print Assumptions C09_hitlimited_views.
+Print Assumptions C09_hitlimited_invariant.
+Print Assumptions C09_hitlimited_established.
+Print Assumptions C09_hitlimited_wf.
+Print Assumptions C09_hitlimited_fuel.
+Print Assumptions C09_hitlimited_elapsed.
+Print Assumptions C09_hitlimited_nonvacuous.
